@@ -6,7 +6,7 @@ from props import dwtfam, c01
 
 ID = 'C02'
 PROPS_MODULE = 'Props.C02'
-THEOREMS = ['C02_line_pr', 'C02_line_pr_exact', 'C02_kernel_window', 'C02_haar_kernel']
+THEOREMS = ['C02_line_pr', 'C02_line_pr_exact', 'C02_kernel_window', 'C02_level_1d', 'C02_multilevel_1d', 'C02_pywt_kernels', 'C02_error_bound_Z', 'C02_haar_kernel']
 VO = ['theories/Props/C02.vo', 'theories/Props/C01.vo', 'theories/Props/C10.vo', 'theories/Run/RunDwt.vo', 'theories/Run/RunSpec.vo']
 RULE = ('correspondence A: analysis and synthesis models (afb1d/sfb1d operator matrices, Functions, level loops incl. the unpad rule) vs the code, '
         'exact; correspondence B: closed forms vs pywt.dwt/idwt; oracle: x == DWTInverse(DWTForward(x)) cropped to the extent, all modes, J, sizes '
